@@ -3,8 +3,8 @@ from ..core import Script, Rng
 from ..stage import LineStage, replay_line
 from .common import *
 
-ARTEFACTS = ["G1-consts", "G2-rs-portable", "G3b-regions", "G8-chunkstate", "G22-dispatch"]
-EXTRA_PROPS = [("B3.Props.C02T", "B3/Props/C02T.lean"), ("B3.Props.CapT", "B3/Props/CapT.lean"), ("B3.Props.C04T", "B3/Props/C04T.lean")]   # theorems about the code translated from the sources
+ARTEFACTS = ["G1-consts", "G2-rs-portable", "G3b-regions", "G8-chunkstate", "G22-dispatch", "G4-listings"]
+EXTRA_PROPS = [("B3.Props.Surface", "B3/Props/Surface.lean"), ("B3.Props.C02T", "B3/Props/C02T.lean"), ("B3.Props.CapT", "B3/Props/CapT.lean"), ("B3.Props.C04T", "B3/Props/C04T.lean")]   # theorems about the code translated from the sources
 RULE = ("reader histories: a root state (chunk root or parent root, any mode, or merge_subtrees_root_xof) then 1-25 ops from "
         "{fill n, read n, setpos p, seek start/cur/end v, pos, clone}; positions from the boundary set {0,1,31,32,63,64,65, "
         "2^32*64 +- d, 2^38 +- d, 2^63, 2^64-1-k}; sizes {0..130, 1023..1025, 64j, 64j+-1, <= 40000}; reads keep p+n <= 2^64-1; "
@@ -73,6 +73,14 @@ def history(rng, plat, nops):
             else:
                 v = rng.choice([0, -1, 1, -100])
             ops.append(f"X seek {x} {w} {v}")
+            seeks += 1
+        elif r < 0.86:
+            # the provided methods of std::io::Seek (rewind = seek(Start(0)), stream_position = seek(Current(0)))
+            if rng.random() < 0.6:
+                ops.append(f"X rewind {x}")
+                pos_of[x] = 0
+            else:
+                ops.append(f"X spos {x}")
             seeks += 1
         elif r < 0.92:
             ops.append(f"X pos {x}")
